@@ -148,6 +148,8 @@ class BaseANTLRSpineParserListener(kernSpineParserListener):
         self.token = SimpleToken(ctx.getText(), TokenCategory.EMPTY)
 
     def exitNonVisualTandemInterpretation(self, ctx: kernSpineParser.NonVisualTandemInterpretationContext):
+        if isinstance(self.token, InstrumentToken):
+            return  # already built by exitInstrument with its own category
         self.token = SimpleToken(ctx.getText(), TokenCategory.OTHER)
 
     def exitVisualTandemInterpretation(self, ctx: kernSpineParser.VisualTandemInterpretationContext):
